@@ -94,12 +94,23 @@ Reply(s, t) ==
   /\ act' = [name |-> "reply", s |-> s, t |-> t, before |-> Snapshot, panic |-> FALSE]
   /\ tokc' = tokc + 1 /\ nops' = nops + 1
 
-(* SetAppendixData writes inside the current buffer or fails unchanged.     *)
-SetAppendix(s, fits) ==
+(* SetAppendixData writes inside the current buffer; when the appendix does  *)
+(* not fit, the frame moves to a bigger pooled buffer (the old one goes back  *)
+(* to the pool, cleared); beyond the protocol limit it fails unchanged.       *)
+SetAppendix(s, mode) ==
   /\ Bound /\ st[s].used
-  /\ IF fits THEN buf' = [buf EXCEPT ![st[s].buf].apx = tokc + 1] ELSE UNCHANGED buf
-  /\ act' = [name |-> "setapx", s |-> s, fits |-> fits, before |-> Snapshot, panic |-> FALSE]
-  /\ UNCHANGED st /\ tokc' = tokc + 1 /\ nops' = nops + 1
+  /\ LET old == st[s].buf
+     IN CASE mode = "fits" ->
+               /\ buf' = [buf EXCEPT ![old].apx = tokc + 1]
+               /\ UNCHANGED st
+          [] mode = "grow" ->
+               \E b \in (Gettable(buf[old].tier) \ {old}) :
+                 /\ buf' = [buf EXCEPT ![old] = [owner |-> 0, tier |-> buf[old].tier, tok |-> 0, apx |-> 0],
+                                       ![b] = [owner |-> s, tier |-> buf[old].tier, tok |-> buf[old].tok, apx |-> tokc + 1]]
+                 /\ st' = [st EXCEPT ![s].buf = b]
+          [] mode = "toobig" -> UNCHANGED <<buf, st>>
+  /\ act' = [name |-> "setapx", s |-> s, mode |-> mode, before |-> Snapshot, panic |-> FALSE]
+  /\ tokc' = tokc + 1 /\ nops' = nops + 1
 
 Mutate(s) ==
   /\ Bound /\ st[s].used
@@ -117,7 +128,7 @@ Release(s) ==
 Next == \/ \E s \in Structs, t \in Tiers : New(s, t) \/ Parse(s, t) \/ Reply(s, t)
         \/ \E s \in Structs, k \in {1, 2} : SetLink(s, k)
         \/ \E s \in Structs, c \in Structs : Clone(s, c)
-        \/ \E s \in Structs, f \in BOOLEAN : SetAppendix(s, f)
+        \/ \E s \in Structs, md \in {"fits", "grow", "toobig"} : SetAppendix(s, md)
         \/ \E s \in Structs : Mutate(s) \/ Release(s)
 
 (* (The leading conjunct keeps TLC from splitting the action on the          *)
@@ -130,7 +141,7 @@ NextSim ==
     ELSE IF k = 3 THEN SetLink(s, IF st[s].link = 1 THEN 2 ELSE 1)
     ELSE IF k <= 6 THEN (IF \E c \in Structs : Free(c)
                         THEN Clone(s, CHOOSE c \in Structs : Free(c)) ELSE Mutate(s))
-    ELSE IF k <= 8 THEN SetAppendix(s, k = 7)
+    ELSE IF k <= 8 THEN \E md \in {RandomElement({"fits", "grow", "toobig"})} : SetAppendix(s, md)
     ELSE IF k = 9 THEN Mutate(s)
     ELSE Release(s)
 
